@@ -179,7 +179,7 @@ func c10Scenario(c *choice.Ctx, rep *report.R, alpha []c10Rule, maxLen int, sub 
 			}
 			obs += fmt.Sprintf("%d%s,", r.RCode(), wantUp)
 		}
-		time.Sleep(3 * time.Second)
+		hsleep(3 * time.Second)
 	}
 	sc.Close()
 	v.Close()
